@@ -126,7 +126,7 @@ impl Sys {
         let stranger = api.addr_make("stranger");
         let init: Vec<Coin> = BASE_DENOMS
             .iter()
-            .map(|d| coin(10u128.pow(33), *d))
+            .map(|d| coin(10u128.pow(37), *d))
             .collect();
         let mut bals: Vec<(Addr, Vec<Coin>)> =
             users.iter().map(|u| (u.clone(), init.clone())).collect();
